@@ -61,7 +61,7 @@ def main():
         plans = json.load(sys.stdin if args.exec_plans == "-" else open(args.exec_plans))
         kernel._worker_init()
         out = kernel._worker_plans((args.prop, plans))
-        slim = [{k: v for k, v in r.items() if k in ("digest", "failures", "harness_error", "known_hits", "obs")} for r in out]
+        slim = [{k: v for k, v in r.items() if k in ("digest", "failures", "harness_error", "known_hits", "obs", "events_head", "faults", "n_events")} for r in out]
         print("RESULTS " + json.dumps(slim))
         return 0
     if args.replay:
